@@ -38,7 +38,14 @@ def check(run):
         return bool(rec['P']) and bool(rec['V'] or rec['url'] or rec['res'] or rec['rres'])
     cov = ic.absorb(run, res, nontrivial)
     # positional-only parameters (inside the quantifier): separate batch so that the signature is precise
-    porecs = [r for r in recs + recs2 if any((not p['d']) and p['f'] in (r['EPF'], r['RNF']) for p in r['P'])]
+    def two_opt(r):
+        cnt = {}
+        for p_ in r['P']:
+            if p_['d'] and p_['f'] in (r['EPF'], r['RNF']):
+                cnt[p_['f']] = cnt.get(p_['f'], 0) + 1
+        return any(v >= 2 for v in cnt.values())
+    porecs = [r for r in recs + recs2 if two_opt(r)][:300] * 2 + \
+        [r for r in recs + recs2 if any((not p['d']) and p['f'] in (r['EPF'], r['RNF']) for p in r['P'])]
     po = ic.replay_records(run, porecs[:600 if quick else 8000],
                            {'mode': 'C01', 'kwonly': False, 'posonly': True, 'carriers': True},
                            [0], run.seed + 1, 'c01po')
